@@ -1046,7 +1046,17 @@ impl<F: NttFriendlyFieldElement, const SEED_SIZE: usize>
         decoding_parameter: &Prio3VerifyState<F, SEED_SIZE>,
         bytes: &mut Cursor<&[u8]>,
     ) -> Result<Self, CodecError> {
-        let mut verifiers = Vec::with_capacity(decoding_parameter.verifiers_len);
+        // Size the allocation by what the remaining input can hold, not by the length the
+        // decoding parameter declares.
+        let remaining = bytes
+            .get_ref()
+            .len()
+            .saturating_sub(usize::try_from(bytes.position()).unwrap_or(usize::MAX));
+        let mut verifiers = Vec::with_capacity(
+            decoding_parameter
+                .verifiers_len
+                .min(remaining / F::ENCODED_SIZE),
+        );
         for _ in 0..decoding_parameter.verifiers_len {
             verifiers.push(F::decode(bytes)?);
         }
